@@ -347,6 +347,12 @@ PROGRAMS = [
     ([(2, False), (2, False)], [(4, False)],
      [_set(0, 0, 4, 5), ("switch", IN(0), [((1,), [("if", [(IN(1), [_set(0, 0, 1, 0)])], [_set(0, 1, 2, 1)])]),
                                             (None, [_set(0, 2, 4, IN(1))])])]),
+    # integer patterns that fit the test's WIDTH but not its sign domain (5 against signed(3), -1 against unsigned(2)): they compare as
+    # integers, so they never match -- in particular not the value they are congruent to -- and must not shadow later cases
+    ([(3, True)], [(4, False)],
+     [("switch", IN(0), [((5,), [_set(0, 0, 4, 1)]), ((-3,), [_set(0, 0, 4, 2)]), ((4, 7), [_set(0, 0, 4, 4)]), (None, [_set(0, 0, 4, 3)])])]),
+    ([(2, False)], [(4, False)],
+     [("switch", IN(0), [((-1,), [_set(0, 0, 4, 1)]), ((3,), [_set(0, 0, 4, 2)]), ((-2, -3), [_set(0, 0, 4, 4)]), (None, [_set(0, 0, 4, 3)])])]),
     # a Default / Case / Else body that ENDS with an else-less If (or If/Elif): the pending If belongs to that body
     ([(2, False), (1, False)], [(4, False), (2, False)],
      [("switch", IN(0), [((1,), [_set(0, 0, 4, 1)]), (None, [_set(1, 0, 2, 1), ("if", [(IN(1), [_set(0, 0, 4, 3)])], None)])])]),
